@@ -119,6 +119,9 @@ pub fn dispatch(n: usize, srw: &Srw, dests: &[usize], w: &mut impl std::io::Writ
         16 => pl_line::<16>(srw, dests, w),
         33 => pl_line::<33>(srw, dests, w),
         64 => pl_line::<64>(srw, dests, w),
+        96 => pl_line::<96>(srw, dests, w),
+        128 => pl_line::<128>(srw, dests, w),
+        200 => pl_line::<200>(srw, dests, w),
         _ => return false,
     }
     true
@@ -156,6 +159,41 @@ pub fn streams(rng: &mut Rng, count: usize, maxreq: usize) -> Vec<Vec<u8>> {
         out.push(s);
     }
     out
+}
+
+
+/// many pipelined requests that arrive in big chunks into a large buffer: several complete requests are
+/// buffered at once, headers start and end at every offset of the buffer (also beyond 64 / 128)
+pub fn pipelined_stream(rng: &mut Rng, size: usize) -> Vec<u8> {
+    let k = 4 + rng.below(12);
+    let mut s: Vec<u8> = vec![];
+    let hmax = [6usize, 14, 30, 54][rng.below(4)].min(size - 4);
+    for j in 0..k {
+        let n = match rng.below(6) {
+            0 => 0,
+            1 => 1 + rng.below(4),
+            2 => 79,
+            3 => 30 + rng.below(40),
+            _ => rng.below(20),
+        };
+        s.push(0x30 + n as u8);
+        let hl = if rng.chance(1, 3) { hmax } else { rng.below(hmax + 1) };
+        for i in 0..hl {
+            s.push(b'A' + ((i + j) % 26) as u8);
+        }
+        if rng.chance(1, 6) {
+            s.push(b'\r');
+        }
+        s.push(b'\n');
+        for i in 0..n {
+            s.push([b'a' + (i % 26) as u8, b'\n', 0xff, b'\r'][if rng.chance(1, 5) { 1 + rng.below(3) } else { 0 }]);
+        }
+    }
+    if rng.chance(1, 8) {
+        let cut = rng.below(s.len() + 1);
+        s.truncate(cut);
+    }
+    s
 }
 
 pub fn run(thorough: bool, seed: u64, w: &mut impl std::io::Write) {
@@ -221,7 +259,20 @@ pub fn run(thorough: bool, seed: u64, w: &mut impl std::io::Write) {
             n += 1;
         }
     }
-    eprintln!("STAT pl scenarios={} long_scenarios={}", n, lcases);
+    let pcases = if thorough { 12000 } else { 1500 };
+    let pscheds: Vec<Vec<usize>> = vec![vec![], vec![50], vec![7, 64], vec![1, 0, 33], vec![128], vec![3]];
+    for _ in 0..pcases {
+        let size = [64usize, 96, 128, 200][rng.below(4)];
+        let s = pipelined_stream(&mut rng, size);
+        let na = rng.below(8);
+        let racts: Vec<RAct> = (0..na).map(|_| RAct::Data([1usize, 8, 31, 32, 33, size / 2, size - 1, size, 1000][rng.below(9)], rng.chance(1, 10))).collect();
+        let srw = mk(1, &s, racts);
+        let ds = &pscheds[rng.below(pscheds.len())];
+        if dispatch(size, &srw, ds, w) {
+            n += 1;
+        }
+    }
+    eprintln!("STAT pl scenarios={} long_scenarios={} pipelined_scenarios={}", n, lcases, pcases);
 }
 
 pub fn replay_line(l: &str, w: &mut impl std::io::Write) -> bool {
